@@ -64,7 +64,8 @@ def run(out, tier, seed):
             ds = any(uses_graph(w) for w in chunk)
             if ds:
                 data = qgen.random_dataset(rng)
-                cfg = {"facade": "dataset", "union_default": bool((i // per + di) % 2)}
+                # Dataset and (every third round) ConjunctiveGraph, whose default context has an identifier of its own
+                cfg = {"facade": "cg" if (i // per + di) % 3 == 2 else "dataset", "union_default": bool((i // per + di) % 2)}
             else:
                 quads = [t + ["D"] for t in (FIXED_GRAPHS[di] if di < len(FIXED_GRAPHS) else qgen.random_graph(rng))]
                 data = {"op": "data", "quads": quads, "graphs": []}
@@ -82,8 +83,24 @@ def run(out, tier, seed):
         ds = i % 3 == 0
         data = qgen.random_dataset(rng) if ds else {"op": "data", "quads": [t + ["D"] for t in qgen.random_graph(rng)], "graphs": []}
         for _ in range(8):
-            jobs.append({"cfg": {"facade": "dataset" if ds else "graph", "union_default": bool(i % 2)},
+            jobs.append({"cfg": {"facade": ("cg" if i % 9 == 0 else "dataset") if ds else "graph", "union_default": bool(i % 2)},
                          "events": [data, {"op": "query", "q": qgen.as_query(rng, gen_noleak(rng, ds), ds)}]})
+    # CONSTRUCT templates with blank nodes over solutions that agree on the template's variables (duplicates, variables the template does not use)
+    BN = lambda l: {"k": "bnode", "v": l}
+    V_, I_, N_ = qgen.V, qgen.I, qgen.N
+    xpy = qgen.bgp((V_("x"), I_("p"), V_("y")))
+    tpls = [[[V_("x"), I_("has"), BN("b")], [BN("b"), I_("val"), V_("y")]], [[BN("b"), I_("p"), N_(1)]], [[V_("x"), I_("has"), BN("b")]],
+            [[BN("b"), I_("of"), V_("x")], [BN("b"), I_("next"), BN("c")], [BN("c"), I_("val"), V_("z")]], [[V_("x"), I_("p"), V_("y")], [BN("b"), I_("p"), BN("b")]]]
+    cw = [qgen.grp(xpy), qgen.grp({"t": "union", "gs": [qgen.grp(xpy), qgen.grp(xpy)]}), qgen.grp(qgen.bgp((V_("x"), I_("p"), V_("y")), (V_("y"), I_("q"), V_("z")))),
+          qgen.grp(xpy, {"t": "optional", "g": qgen.grp(qgen.bgp((V_("x"), I_("q"), V_("z"))))}),
+          qgen.grp({"t": "subselect", "q": {"form": "select", "proj": ["x"], "distinct": False, "where": qgen.grp(xpy)}}),
+          qgen.grp({"t": "values", "vars": ["x"], "rows": [[I_("n1")], [I_("n1")], [I_("n2")]]})]
+    for di in range(3 if quick else 12):
+        gd = FIXED_GRAPHS[di] if 0 < di < len(FIXED_GRAPHS) else qgen.random_graph(rng)
+        data = {"op": "data", "quads": [t + ["D"] for t in gd], "graphs": []}
+        for w in cw:
+            for tpl in tpls:
+                jobs.append({"cfg": {"facade": "graph"}, "events": [data, {"op": "query", "q": {"form": "construct", "proj": ["*"], "template": tpl, "where": w}}]})
     # wide data: operands of a dozen rows (evaluation strategies that switch on operand size), the same subjects in several graphs
     wq = qgen.wide_queries()
     out.extra["wide_queries"] = len(wq)
@@ -96,5 +113,5 @@ def run(out, tier, seed):
                 continue
             ds = uses_graph(w)
             q = {"form": "select", "proj": ["*"], "where": w}
-            jobs.append({"cfg": {"facade": "dataset", "union_default": bool(i % 2)} if ds else {"facade": "graph"}, "events": [ddata if ds else gdata, {"op": "query", "q": q}]})
+            jobs.append({"cfg": {"facade": "cg" if i % 4 == 3 else "dataset", "union_default": bool(i % 2)} if ds else {"facade": "graph"}, "events": [ddata if ds else gdata, {"op": "query", "q": q}]})
     out.conform(__name__, TRACE, jobs, nontrivial=nontrivial, chunk=400, par=16)
